@@ -8,6 +8,9 @@ import (
 	"strings"
 )
 
+// maxLivePaths: above this many simultaneously live paths they are joined into one state.
+const maxLivePaths = 6
+
 const (
 	okNormal = iota
 	okBreak
@@ -40,7 +43,7 @@ func (fv *FuncVerifier) execBlock(st *State, env *Env, stmts []ast.Stmt) []Outco
 			}
 		}
 		cur = next
-		if len(cur) > 64 {
+		if len(cur) > maxLivePaths {
 			// too many paths: join
 			j := cur[0].Clone()
 			fv.joinInto(j, cur)
@@ -414,6 +417,15 @@ func (fv *FuncVerifier) execIf(st *State, env *Env, x *ast.IfStmt) []Outcome {
 
 // mergeNormals joins the normal outcomes of a branching statement into one state (keeps path count linear).
 func (fv *FuncVerifier) mergeNormals(outs []Outcome) []Outcome {
+	nn := 0
+	for _, o := range outs {
+		if o.kind == okNormal {
+			nn++
+		}
+	}
+	if nn <= maxLivePaths {
+		return outs // keep paths separate: simpler queries; execBlock joins when there are too many
+	}
 	var normals []*State
 	var rest []Outcome
 	for _, o := range outs {
@@ -585,6 +597,21 @@ type writeSet struct {
 	heapAll bool
 	heap    map[string]bool
 	yields  bool
+	// heapBases[key]: the (simple) base expressions through which key is written; nil entry = unknown bases
+	heapBases map[string][]ast.Expr
+	heapUnk   map[string]bool
+}
+
+func (ws *writeSet) addBase(key string, base ast.Expr) {
+	if ws.heapBases == nil {
+		ws.heapBases = map[string][]ast.Expr{}
+		ws.heapUnk = map[string]bool{}
+	}
+	if base == nil {
+		ws.heapUnk[key] = true
+		return
+	}
+	ws.heapBases[key] = append(ws.heapBases[key], base)
 }
 
 func (fv *FuncVerifier) collectWrites(env *Env, n ast.Node, ws *writeSet, depth int) {
@@ -631,7 +658,13 @@ func (fv *FuncVerifier) collectWrites(env *Env, n ast.Node, ws *writeSet, depth 
 					ct = stt.Field(idx).Type()
 				}
 				if _, isPtr := ct.Underlying().(*types.Pointer); isPtr {
-					ws.heap[fieldKey(ct, sel.Obj().Name())] = true
+					key := fieldKey(ct, sel.Obj().Name())
+					ws.heap[key] = true
+					if len(path) == 1 {
+						ws.addBase(key, x.X)
+					} else {
+						ws.addBase(key, nil)
+					}
 				} else {
 					lhs(x.X)
 				}
@@ -711,6 +744,22 @@ func (fv *FuncVerifier) callWrites(env *Env, call *ast.CallExpr, ws *writeSet, d
 			}
 		}
 	}
+	{
+		var vobj types.Object
+		switch f := fun.(type) {
+		case *ast.Ident:
+			vobj = info.ObjectOf(f)
+		case *ast.SelectorExpr:
+			if _, isSel := info.Selections[f]; !isSel {
+				vobj = info.ObjectOf(f.Sel)
+			}
+		}
+		if vobj != nil {
+			if vc := fv.prog.VarContracts[vobj]; vc != nil && vc.Has("pure", 0) {
+				return
+			}
+		}
+	}
 	callee := calleeOf(info, call)
 	if fn, ok := callee.(*types.Func); ok {
 		if isSpecName(fn.Name()) {
@@ -726,6 +775,7 @@ func (fv *FuncVerifier) callWrites(env *Env, call *ast.CallExpr, ws *writeSet, d
 				return
 			case "content":
 				ws.heap[contentKey] = true
+				ws.addBase(contentKey, nil)
 				return
 			}
 		}
@@ -767,6 +817,11 @@ func (fv *FuncVerifier) callWrites(env *Env, call *ast.CallExpr, ws *writeSet, d
 						// field key by walking types
 						if key := fv.assignsFieldKey(fi, parts); key != "" {
 							ws.heap[key] = true
+							if ae := fv.argExprByName(fi, call, parts[0]); ae != nil && len(parts) == 2 {
+								ws.addBase(key, ae)
+							} else {
+								ws.addBase(key, nil)
+							}
 						} else {
 							ws.heapAll = true
 						}
@@ -975,6 +1030,7 @@ func (fv *FuncVerifier) runLoopR(st *State, env *Env, lc *loopCtx, label string,
 	// 2. arbitrary iteration
 	head := st.Clone()
 	fv.applyHavoc(head, writes)
+	fv.loopHeapFrame(st, head, env, writes)
 	havocGhost(head)
 	setNames(head)
 	for _, f := range facts(head) {
@@ -1006,6 +1062,7 @@ func (fv *FuncVerifier) runLoopR(st *State, env *Env, lc *loopCtx, label string,
 		switch {
 		case o.kind == okNormal || (o.kind == okContinue && (o.label == "" || o.label == label)):
 			setNames(o.st)
+			fv.applyHints(o.st, lc)
 			for _, iv := range fv.loopInvariants(o.st, lc) {
 				fv.obligeNamedAt(o.st, "F", fmt.Sprintf("inv[loop%d,%d].preserved", lc.ord, iv.cl.Ord), iv.t, lc.bodyPos, "loop invariant preserved: "+iv.cl.Text)
 			}
@@ -1022,6 +1079,63 @@ func (fv *FuncVerifier) runLoopR(st *State, env *Env, lc *loopCtx, label string,
 	// restore names for code after the loop (exit state)
 	setNames(exit)
 	return fv.mergeNormals(outs)
+}
+
+// loopHeapFrame: a heap field written in the loop body only through loop-invariant base variables keeps its
+// value at every other object (engine-supplied frame fact for the havocked loop head).
+func (fv *FuncVerifier) loopHeapFrame(entry, head *State, env *Env, ws *writeSet) {
+	if ws.heapAll {
+		return
+	}
+	for key := range ws.heap {
+		if ws.heapUnk[key] || len(ws.heapBases[key]) == 0 {
+			continue
+		}
+		h0, ok := entry.heap[key]
+		if !ok {
+			continue // never read before the loop: nothing to relate to
+		}
+		var excl []Term
+		okAll := true
+		for _, b := range ws.heapBases[key] {
+			id, isId := ast.Unparen(b).(*ast.Ident)
+			if !isId {
+				okAll = false
+				break
+			}
+			o := env.info.ObjectOf(id)
+			if o == nil || ws.vars[o] {
+				okAll = false
+				break
+			}
+			v, has := head.vars[o]
+			if !has {
+				if env.binds != nil {
+					v, has = env.binds[o]
+				}
+			}
+			if !has || v.Sort != SRef {
+				okAll = false
+				break
+			}
+			excl = append(excl, Not(App(SBool, "=", Term{"r$", SRef}, v)))
+		}
+		if !okAll {
+			continue
+		}
+		h1 := fv.heapGet(head, key, h0.Sort)
+		head.Assume(T(SBool, "(forall ((r$ Ref)) (! (=> %s (= (select %s r$) (select %s r$))) :pattern ((select %s r$))))", And(excl...).S, h1.S, h0.S, h1.S))
+	}
+}
+
+// applyHints makes the terms of `loop k hint e1, e2` clauses available to the solver as ground terms
+// (triggers one unfolding of recursive spec functions at those arguments). A hint adds no assumption.
+func (fv *FuncVerifier) applyHints(st *State, lc *loopCtx) {
+	for _, cl := range fv.fn.Contr.Get("hint", lc.ord, 0) {
+		t := fv.evalClause(st, cl, lc.bodyPos, lc.names, lc.entry)
+		name := fv.w.UFun("hint_"+sanitize(string(t.Sort)), []Sort{t.Sort}, SBool, "")
+		st.Assume(Or(App(SBool, name, t), Not(App(SBool, name, t))))
+	}
 }
 
 func (fv *FuncVerifier) obligeNamedAt(st *State, class, name string, goal Term, site token.Pos, desc string) {
@@ -1184,6 +1298,10 @@ func (fv *FuncVerifier) execRange(st *State, env *Env, x *ast.RangeStmt, label s
 						Le(IntLit(0), c), Le(c, IntLit(0x10FFFF)),
 						App(SBool, "=", c, w.SeqAt(runes, getIt(st))),
 						Le(IntLit(0), b), Le(b, IntLit(255)),
+						// continuation bytes of a multi-byte rune are >= 0x80
+						Implies(Gt(wd, IntLit(1)), Ge(w.SeqAt(s, Add(off, IntLit(1))), IntLit(128))),
+						Implies(Gt(wd, IntLit(2)), Ge(w.SeqAt(s, Add(off, IntLit(2))), IntLit(128))),
+						Implies(Gt(wd, IntLit(3)), Ge(w.SeqAt(s, Add(off, IntLit(3))), IntLit(128))),
 					))
 					bindIter(st, kobj, off)
 					bindIter(st, vobj, c)
